@@ -12,9 +12,10 @@ Tie:    (T) translate/runorder.py regenerates Gen/RunOrder.lean (order of the ph
         (C) exhaustive-by-size + seeded enumeration of programs of the fragment, run on the real
             Scenic with a logging Simulator whose schedule is permuted, event log and
             SimulationResult compared with the Lean driver;
-        (S) the same real logs are checked against the documented semantics without the
-            generated flags (`rundoc`), plus a family of single-construct programs whose
-            stopping step is computed in closed form.
+        (S) the same real logs are checked against the model run with the documented phase order
+            (`rundoc`), by the order automaton of Model/SimSpec.lean, by a scan for anything that
+            runs after the top-level scenario has stopped, plus a family of single-construct
+            programs whose stopping step is computed in closed form.
 """
 import json
 import math
@@ -49,12 +50,20 @@ THEOREMS = [
     "Scenic.C12.wait_for_ends",
     "Scenic.C12.wait_until_exact",
     "Scenic.C12.secToSteps_spec",
-    "Scenic.C12.subscenario_terminate_when_documented",
-    "Scenic.C12.subscenario_terminate_when_witness",
-    "Scenic.C12.subscenario_monitor_terminate_documented",
-    "Scenic.C12.subscenario_monitor_terminate_witness",
+    "Scenic.C12.do_modifier_fires_compose",
+    "Scenic.C12.compose_stopSubs",
+    "Scenic.C12.stepScen_limit",
+    "Scenic.C12.stepScen_limit_log",
+    "Scenic.C12.stepScen_cont",
+    "Scenic.C12.monSubs_only_endSim",
+    "Scenic.C12.runMonitors_endScen_own",
+    "Scenic.C12.terminate_after_scenario_ended",
+    "Scenic.C12.terminate_simulation_when_last",
+    "Scenic.C12.subscenario_terminate_when",
+    "Scenic.C12.subscenario_monitor_terminate",
 ]
-SIDE = ["Scenic.C12.gen_run_order", "Scenic.C12.gen_doc_order", "Scenic.C12.gen_step_order", "Scenic.C12.gen_time_ops"]
+SIDE = ["Scenic.C12.gen_run_order", "Scenic.C12.gen_doc_order", "Scenic.C12.gen_step_order", "Scenic.C12.gen_time_ops",
+        "Scenic.C12.gen_subscenario_flags", "Scenic.C12.gen_tree_walks", "Scenic.C12.gen_init_record_order"]
 FINGERPRINTS = {
     "Simulation._run": ("src/scenic/core/simulators.py", "Simulation._run"),
     "Simulation.__init__": ("src/scenic/core/simulators.py", "Simulation.__init__"),
@@ -70,6 +79,15 @@ FINGERPRINTS = {
         ("src/scenic/core/dynamics/scenarios.py", "DynamicScenario._addDynamicRequirement"),
     "DynamicScenario._evaluateRecordedExprsAt":
         ("src/scenic/core/dynamics/scenarios.py", "DynamicScenario._evaluateRecordedExprsAt"),
+    "DynamicScenario._registerCompiledRequirement":
+        ("src/scenic/core/dynamics/scenarios.py", "DynamicScenario._registerCompiledRequirement"),
+    "DynamicRequirement": ("src/scenic/core/requirements.py", "DynamicRequirement"),
+    "Invocable._runSubBehavior": ("src/scenic/core/dynamics/invocables.py", "Invocable._runSubBehavior"),
+    "Invocable._start": ("src/scenic/core/dynamics/invocables.py", "Invocable._start"),
+    "Invocable._stop": ("src/scenic/core/dynamics/invocables.py", "Invocable._stop"),
+    "Behavior._stop": ("src/scenic/core/dynamics/behaviors.py", "Behavior._stop"),
+    "Simulation.setup": ("src/scenic/core/simulators.py", "Simulation.setup"),
+    "Simulation.updateObjects": ("src/scenic/core/simulators.py", "Simulation.updateObjects"),
     "Behavior._step": ("src/scenic/core/dynamics/behaviors.py", "Behavior._step"),
     "Behavior._invokeInner": ("src/scenic/core/dynamics/behaviors.py", "Behavior._invokeInner"),
     "Behavior._start": ("src/scenic/core/dynamics/behaviors.py", "Behavior._start"),
@@ -167,8 +185,9 @@ def tok_prog(p, op="run", fm="f", ideal=False):
                           else ["q", fr(rat_of_decimal(lim[1]))])
         t += ["tw", str(len(s["tw"]))] + [str(x) for x in s["tw"]]
         t += ["ra", str(int(s["ra"]))]
-    t += ["tsw", str(len(p["tsw"]))] + [str(x) for x in p["tsw"]]
-    t += ["rec", str(int(p["rec"][0])), str(p["rec"][1]), str(int(p["rec"][2]))]
+        tsw, (ri, tags, rf) = s.get("tsw", []), s.get("rec", (0, [], 0))
+        t += ["tsw", str(len(tsw))] + [str(x) for x in tsw]
+        t += ["rec", str(int(ri)), str(len(tags))] + [str(x) for x in tags] + [str(int(rf))]
     t += ["sched", str(len(p["sched"]))]
     for m in p["sched"]:
         t += [str(x) for x in m]
@@ -290,16 +309,15 @@ def scenic_text(p):
             body.append(f"terminate after {lim[1]} {'steps' if lim[0] == 's' else 'seconds'}")
         for c in s["tw"]:
             body.append(f'terminate when cnd("tw", {c})')
-        if i == 0:
-            for c in p["tsw"]:
-                body.append(f'terminate simulation when cnd("ts", {c})')
-            ri, rn, rf = p["rec"]
-            if ri:
-                body.append("record initial lri() as ri")
-            for k in range(rn):
-                body.append(f"record lr({k}) as r{k}")
-            if rf:
-                body.append("record final lrf() as rf")
+        for c in s.get("tsw", []):
+            body.append(f'terminate simulation when cnd("ts", {c})')
+        ri, tags, rf = s.get("rec", (0, [], 0))
+        if ri:
+            body.append(f"record initial lri() as ri_{i}")
+        for k, tag in enumerate(tags):
+            body.append(f"record lr({tag}) as r_{i}_{k}")
+        if rf:
+            body.append(f"record final lrf() as rf_{i}")
         if not body:
             body.append("pass")
         L += ["        " + x for x in body]
@@ -646,11 +664,17 @@ def gen_prog(rng, sub_tw=True):
         tw = [rng.randrange(len(P["conds"])) for _ in range(rng.choice([0, 0, 1, 1, 2]))]
         if i > 0 and not sub_tw:
             tw = []
+        if i == 0:
+            tsw = [rng.randrange(len(P["conds"])) for _ in range(rng.choice([0, 0, 1, 2]))]
+            rec = (int(rng.random() < 0.5), list(range(rng.choice([0, 1, 2]))), int(rng.random() < 0.5))
+        else:
+            tsw = [rng.randrange(len(P["conds"])) for _ in range(rng.choice([0, 0, 0, 1]))]
+            rec = ((int(rng.random() < 0.5), [10 * i + k for k in range(rng.choice([0, 1, 1, 2]))], int(rng.random() < 0.5))
+                   if rng.random() < 0.35 else (0, [], 0))
         P["scens"].append({"agents": [rng.randrange(P["nbeh"]) for _ in range(na)],
                            "mons": [rng.randrange(nmon) for _ in range(rng.choice([0, 1, 1, 2]))] if nmon else [],
-                           "compose": comp, "limit": lim, "tw": tw, "ra": int(rng.random() < 0.4)})
-    P["tsw"] = [rng.randrange(len(P["conds"])) for _ in range(rng.choice([0, 0, 1, 2]))]
-    P["rec"] = (int(rng.random() < 0.5), rng.choice([0, 1, 2]), int(rng.random() < 0.5))
+                           "compose": comp, "limit": lim, "tw": tw, "ra": int(rng.random() < 0.4),
+                           "tsw": tsw, "rec": rec})
     P["sched"] = [rng.choice([("id",), ("rev",), ("rot", rng.randrange(1, 4)), ("swap",)])
                   for _ in range(rng.choice([1, 2, 3]))]
     del P["nbeh"], P["nscen"]
@@ -660,8 +684,16 @@ def gen_prog(rng, sub_tw=True):
 def base_prog(dt="1", mx=6):
     return {"dt": dt, "max": mx, "conds": [("ge", 2), ("eq", 1), ("tt",), ("ff",), ("ge", 4)],
             "behs": [[("V", [("T", 1)])], [("V", [("T", 2)])]], "mons": [],
-            "scens": [{"agents": [0], "mons": [], "compose": None, "limit": None, "tw": [], "ra": 0}],
-            "tsw": [], "rec": (1, 1, 1), "sched": [("rev",)]}
+            "scens": [{"agents": [0], "mons": [], "compose": None, "limit": None, "tw": [], "ra": 0,
+                       "tsw": [], "rec": (1, [0], 1)}],
+            "sched": [("rev",)]}
+
+
+def sub_scen(**kw):
+    """a sub-scenario class with defaults"""
+    d = {"agents": [], "mons": [], "compose": None, "limit": None, "tw": [], "ra": 0, "tsw": [], "rec": (0, [], 0)}
+    d.update(kw)
+    return d
 
 
 def enum_core():
@@ -714,7 +746,12 @@ def enum_core():
             out.append(p)
         for c in range(5):
             p = base_prog(dt)
-            p["tsw"] = [c]
+            p["scens"][0]["tsw"] = [c]
+            out.append(p)
+            # the same condition in a sub-scenario that runs for 3 steps (its records are evaluated after the parent's)
+            p = base_prog(dt)
+            p["scens"][0]["compose"] = [("W",), ("D", [1], ("Fs", 3)), ("L", 2), ("V", [("W",)])]
+            p["scens"].append(sub_scen(agents=[1], tsw=[c], rec=(1, [11, 12], 1), ra=1))
             out.append(p)
             p = base_prog(dt)
             p["scens"][0]["tw"] = [3, c]
@@ -783,9 +820,17 @@ def closed_form_cases():
         mx = 5
         p = base_prog("1", mx)
         p["conds"] = [("ge", k)]
-        p["tsw"] = [0]
+        p["scens"][0]["tsw"] = [0]
         exp = {"type": "simulationTerminationCondition", "time": k} if k <= mx else {"type": "timeLimit", "time": mx}
         cases.append(("terminate-simulation-when", p, exp))
+        # the same in a sub-scenario started at clock 1 and running for 3 steps (clocks 1, 2, 3): its condition ends the
+        # simulation while it runs (not before it was started), and is not looked at once it has ended (clock 4 on)
+        p = base_prog("1", mx)
+        p["conds"] = [("ge", k)]
+        p["scens"][0]["compose"] = [("W",), ("D", [1], ("Fs", 3)), ("V", [("W",)])]
+        p["scens"].append(sub_scen(tsw=[0]))
+        exp = ({"type": "simulationTerminationCondition", "time": max(k, 1)} if k <= 3 else {"type": "timeLimit", "time": mx})
+        cases.append(("subscenario-terminate-simulation-when", p, exp))
         p = base_prog("1", mx)
         p["conds"] = [("ge", k)]
         p["scens"][0]["tw"] = [0]
@@ -852,6 +897,35 @@ def closed_form_cases():
         p["scens"][0]["compose"] = [("D", [1], ("N",)), ("L", 7), ("V", [("W",)])]
         p["scens"].append({"agents": [0], "mons": [], "compose": None, "limit": ("s", 1), "tw": [], "ra": 0})
         cases.append(("terminate-after-scenario-ended", p, {"type": "timeLimit", "time": mx}))
+        # an agent of a sub-scenario executes `terminate` at clock k: the sub-scenario stops during the behaviors of
+        # step k, the parent's compose block continues in step k + 1
+        p = base_prog("1", mx)
+        p["behs"] = [[("R", k, [("T", 1)]), ("X",), ("V", [("T", 2)])]]
+        p["scens"][0]["agents"] = []
+        p["scens"][0]["compose"] = [("D", [1], ("N",)), ("L", 7), ("W",), ("W",)]
+        p["scens"].append(sub_scen(agents=[0], compose=[("V", [("L", 4), ("W",)])], mons=[]))
+        cases.append(("subscenario-agent-terminate", p, {"type": "scenarioComplete", "time": k + 3, "event": ("c:0:7", k + 1)}))
+        # the parent reaches its time limit while two sub-scenarios (one nested) run: they are stopped with it, at once
+        p = base_prog("1", mx)
+        p["mons"] = [[("V", [("L", 3), ("W",)])]]
+        p["scens"][0]["limit"] = ("s", k)
+        p["scens"][0]["compose"] = [("D", [1, 2], ("N",)), ("L", 7)]
+        p["scens"].append(sub_scen(agents=[1], compose=[("D", [2], ("N",))], mons=[0], rec=(0, [11], 1)))
+        p["scens"].append(sub_scen(compose=[("V", [("L", 4), ("W",)])], ra=1))
+        cases.append(("subscenario-stopped-with-parent", p, {"type": "scenarioComplete", "time": k}))
+        # a monitor of the top-level scenario executes `terminate` while a sub-scenario with its own monitor runs
+        p = base_prog("1", mx)
+        p["mons"] = [[("R", k, [("W",)]), ("X",)], [("V", [("L", 3), ("W",)])]]
+        p["scens"][0]["mons"] = [0]
+        p["scens"][0]["compose"] = [("D", [1], ("N",))]
+        p["scens"].append(sub_scen(agents=[1], compose=[("V", [("L", 4), ("W",)])], mons=[1]))
+        cases.append(("subscenario-top-monitor-terminate", p, {"type": "terminatedByMonitor", "time": k}))
+        # the step limit ends the run while several scenarios run: they are stopped most recently started first
+        p = base_prog("1", k + 1)
+        p["scens"][0]["compose"] = [("D", [1, 1], ("Fs", 9)), ("L", 7)]
+        p["scens"].append(sub_scen(compose=[("D", [2], ("N",))], rec=(1, [12], 1)))
+        p["scens"].append(sub_scen(compose=[("V", [("W",)])], ra=1))
+        cases.append(("subscenario-finish-order", p, {"type": "timeLimit", "time": k + 1}))
     return cases
 
 
@@ -885,13 +959,6 @@ def check_closed(name, p, exp, line):
 
 
 # =========================================================================== the check
-KNOWN_DOC = {
-    (True, False): "subscenario-terminate-when",
-    (False, True): "subscenario-monitor-terminate",
-    (True, True): "subscenario-terminate-when+monitor-terminate",
-}
-
-
 def _worker(p):
     try:
         return run_real(p)
@@ -970,9 +1037,27 @@ def features(p):
             f.add(("sub:" if i else "top:") + "terminate-when")
         if s["mons"]:
             f.add(("sub:" if i else "top:") + "monitor")
-    if p["tsw"]:
-        f.add("top:terminate-simulation-when")
+        if s.get("tsw"):
+            f.add(("sub:" if i else "top:") + "terminate-simulation-when")
+        if any(s.get("rec", (0, [], 0))):
+            f.add(("sub:" if i else "top:") + "record")
     return f
+
+
+AFTER_TOP_STOP = ("stop:", "ri", "r:", "traj:", "rf")
+
+
+def after_top_stop(evs):
+    """(S4) once the top-level scenario has stopped (`stop:0`), the only things that still happen are the stopping of
+    other scenarios, the records and trajectory entry of the same step and the final records: no compose block, no
+    monitor, no condition, no behavior, no action, no simulator step.  Returns the index of the first offending event."""
+    if "stop:0" not in evs:
+        return None
+    k = evs.index("stop:0")
+    for j in range(k + 1, len(evs)):
+        if not evs[j].startswith(AFTER_TOP_STOP):
+            return j
+    return None
 
 
 def run(ctx):
@@ -1003,7 +1088,7 @@ def run(ctx):
     try:
         d = runorder.extract()
         ctx.gen("RunOrder", runorder.to_lean(d))
-        ctx.extra["generated"] = {k: d[k] for k in ("runOrder", "stepOrder", "dynReqAsTemporal", "monTermPropagates", "ops")}
+        ctx.extra["generated"] = {k: d[k] for k in d if k not in ("docOrder", "docStepOrder")}
     except TemplateMismatch as e:
         ctx.escalated.append(f"translator tie lost (runorder): {e}")
         ctx.notes.append(f"translator tie lost: {e}; Gen/RunOrder.lean keeps the last extracted data and the tie "
@@ -1012,7 +1097,7 @@ def run(ctx):
     pr = ctx.prove(THEOREMS, side_conditions=SIDE)
     ctx.extra["prove_s"] = round(time.time() - tp, 1)
     if ctx.tier == "thorough" and pr.build_ok:
-        ctx.leanchecker(["ScenicModel.Props.C12", "ScenicModel.Props.C12Co", "ScenicModel.Lemmas.SimTop",
+        ctx.leanchecker(["ScenicModel.Props.C12", "ScenicModel.Props.C12Co", "ScenicModel.Props.C12Sub", "ScenicModel.Lemmas.SimTop",
                          "ScenicModel.Lemmas.SimOrder", "ScenicModel.Lemmas.SimLoop"])
     have_driver = pr.build_ok
     if not have_driver:
@@ -1042,7 +1127,9 @@ def run(ctx):
     # one case of every construct first, so that a time-boxed run still sees every construct
     seen, first, later = set(), [], []
     for c in closed_run:
-        (later if c[0] in seen else first).append(c)
+        # always first: one case of every construct and every sub-scenario case (the ones the repaired defects and most
+        # tree-walk mutants need)
+        (later if c[0] in seen and not c[0].startswith(("subscenario", "terminate-after-scenario")) else first).append(c)
         seen.add(c[0])
     closed_run = first + later
     rand = [gen_prog(rng) for _ in range(nrand)]
@@ -1054,9 +1141,11 @@ def run(ctx):
     for i in range(max(len(a), len(b), len(c))):
         jobs += a[i:i + 1] + b[i:i + 1] + c[i:i + 1]
     minimum = len(first) + 10
-    workers = ctx.budget(8, 14)
+    workers = int(os.environ.get("VERIF_WORKERS") or ctx.budget(8, 14))
     t0 = time.time()
-    deadline = None if (ctx.tier == "thorough" or escal) else ctx.t0 + 120
+    # quick tier: time box (a changed fingerprint / lost template doubles it and runs every closed-form case first)
+    # thorough tier: every closed-form and enumerated program, then seeded random programs until 15 minutes have passed
+    deadline = ctx.t0 + 900 if ctx.tier == "thorough" else ctx.t0 + (270 if escal else 120)
     reals = run_many(ctx, [j[1] for j in jobs], workers, deadline=deadline, minimum=minimum)
     if len(reals) < len(jobs):
         ctx.notes.append(f"time box: {len(reals)} of {len(jobs)} planned programs were run")
@@ -1072,7 +1161,7 @@ def run(ctx):
     lean_gen = lean_doc = None
     if have_driver:
         lean_gen = ctx.driver([tok_prog(j[1]) for j in jobs])
-        lean_doc = ctx.driver([tok_prog(j[1], op="runsem 0 0") for j in jobs])
+        lean_doc = ctx.driver([tok_prog(j[1], op="rundoc") for j in jobs])
         wf = ctx.driver(["C12 wf " + (parse_line(r)[1] and ";".join(parse_line(r)[1]) or "-") for r in reals])
     nbad = 0
     for k, ((kind, p, name, exp), real) in enumerate(zip(jobs, reals)):
@@ -1092,14 +1181,20 @@ def run(ctx):
             ctx.hist("generator", "invalid")
             continue
         if h[0].startswith("crash:"):
-            if h[0] == "crash:AssertionError@_makeTerminationAction":
-                found |= ctx.violation("crash:terminate-after-scenario-collected",
-                                       "a behavior executed `terminate` after the scenario that defined its agent had ended and "
-                                       "been garbage-collected: AssertionError in _makeTerminationAction (the weak reference "
-                                       "`agent._parentScenario()` is dead)", rep)
-            else:
-                found |= ctx.violation(f"crash:{h[0][6:]}", f"the simulation raised {h[0][6:]}", rep)
+            found |= ctx.violation(f"crash:{h[0][6:]}", f"the simulation raised {h[0][6:]}: "
+                                   f"{';'.join(evs[-8:])}", rep)
             continue
+        if h[0] == "rejected":
+            # no program of the fragment has a requirement that can fail
+            found |= ctx.violation("rejected", "the simulation was rejected although the program has no requirement that "
+                                   f"can fail: {';'.join(evs[-8:])}", rep)
+            continue
+        # (S4) nothing runs after the top-level scenario has stopped
+        bad = after_top_stop(evs)
+        if bad is not None:
+            found |= ctx.violation(f"after-top-stop:{evs[bad].split(':')[0]}",
+                                   f"after the top-level scenario stopped (stop:0) the run went on with `{evs[bad]}`: "
+                                   f"{';'.join(evs[max(0, bad - 6):bad + 2])}", rep)
         # (S2) documented order, without any model: the spec automaton on the real event log
         if have_driver:
             w = wf[k].split(" ")
@@ -1123,15 +1218,8 @@ def run(ctx):
                            f"first difference at event {d[0]}: real={d[1]} model={d[2]}; program={json.dumps(p)[:600]}")
         # (S1) documented semantics (documented order, no defect flags) vs real run
         if have_driver and real != lean_doc[k]:
-            alt = ctx.driver([tok_prog(p, op=f"runsem {a} {b}") for a, b in ((1, 0), (0, 1), (1, 1))])
-            why = None
-            for (a, b), line in zip(((True, False), (False, True), (True, True)), alt):
-                if line == real:
-                    why = KNOWN_DOC[(a, b)]
-                    break
             d = first_diff(real, lean_doc[k])
-            if why is None:
-                why = "event:" + d[1].split(":")[0]
+            why = "event:" + d[1].split(":")[0]
             found |= ctx.violation(f"doc-deviation:{why}",
                                    f"the real run differs from the documented semantics at event {d[0]}: real={d[1]} "
                                    f"documented={d[2]} (real ended `{' '.join(h)}`, documented `{parse_line(lean_doc[k])[0]}`)", rep)
@@ -1167,7 +1255,7 @@ def replay(ctx, path):
     real = run_real(p)
     print("real      :", real)
     try:
-        gen, doc = ctx.driver([tok_prog(p), tok_prog(p, op="runsem 0 0")])
+        gen, doc = ctx.driver([tok_prog(p), tok_prog(p, op="rundoc")])
         print("model(gen):", gen)
         print("model(doc):", doc)
         d = first_diff(real, doc)
